@@ -760,9 +760,11 @@ func maskPremise(p *core.Prog, fam *parserFamily, f *ssa.Function, m, v int64) s
 // (len(dec.buffer) != 0) or just refilled with buffer0[:n] and n tested != 0.
 
 type fnState struct {
-	nonEmpty stringSet   // field keys known to hold a non-empty slice
+	nonEmpty stringSet      // field keys known to hold a non-empty slice
 	high     map[string]int // field key -> value id of n after field = x[:n]
-	nz       valueSet    // ints known != 0
+	nz       valueSet       // ints known != 0
+	// boolean results of a helper of the same receiver: value id -> the fields that are non-empty when it is true / false
+	facts map[int][2]stringSet
 }
 type fnClient struct {
 	p      *core.Prog
@@ -772,6 +774,33 @@ type fnClient struct {
 	num    *valueNumbering
 	bad    string
 	calls  int
+	// summary mode (a helper of the caller): per boolean result index and outcome, the fields non-empty at every such return
+	sumOut  map[int]*[2]*stringSet
+	sums    map[*ssa.Function]map[int]*[2]*stringSet
+	sumBusy map[*ssa.Function]bool
+}
+
+// helperSummary: for a method the caller invokes on its own receiver, which
+// slice fields are known non-empty whenever boolean result i is true / false.
+func (k *fnClient) helperSummary(h *ssa.Function) map[int]*[2]*stringSet {
+	if k.sums == nil {
+		k.sums, k.sumBusy = map[*ssa.Function]map[int]*[2]*stringSet{}, map[*ssa.Function]bool{}
+	}
+	if v, ok := k.sums[h]; ok {
+		return v
+	}
+	if k.sumBusy[h] || h.Blocks == nil {
+		return nil
+	}
+	k.sumBusy[h] = true
+	defer delete(k.sumBusy, h)
+	hk := &fnClient{p: k.p, fn: h, target: k.target, argIdx: k.argIdx, num: newNumbering(), sumOut: map[int]*[2]*stringSet{}, sums: k.sums, sumBusy: k.sumBusy}
+	_, capped := WalkPaths[fnState](hk, h.Blocks[0], 0, fnState{high: map[string]int{}}, 200000, nil)
+	if capped {
+		hk.sumOut = nil
+	}
+	k.sums[h] = hk.sumOut
+	return hk.sumOut
 }
 
 func (k *fnClient) Key(s fnState) string {
@@ -780,10 +809,51 @@ func (k *fnClient) Key(s fnState) string {
 		hs = append(hs, fmt.Sprintf("%s=%d", f, id))
 	}
 	sort.Strings(hs)
-	return s.nonEmpty.key() + "|" + strings.Join(hs, ",") + "|" + s.nz.key()
+	var fs []string
+	for id, f := range s.facts {
+		fs = append(fs, fmt.Sprintf("%d:%s/%s", id, f[0].key(), f[1].key()))
+	}
+	sort.Strings(fs)
+	return s.nonEmpty.key() + "|" + strings.Join(hs, ",") + "|" + s.nz.key() + "|" + strings.Join(fs, ",")
 }
 func (k *fnClient) Phis(s fnState, _ *ssa.BasicBlock, _ int) fnState { return s }
-func (k *fnClient) Return(fnState, *ssa.Return)                     {}
+func (k *fnClient) Return(s fnState, ret *ssa.Return) {
+	if k.sumOut == nil {
+		return
+	}
+	res := k.fn.Signature.Results()
+	for i := 0; i < res.Len(); i++ {
+		if b, ok := res.At(i).Type().Underlying().(*types.Basic); !ok || b.Kind() != types.Bool {
+			continue
+		}
+		if k.sumOut[i] == nil {
+			k.sumOut[i] = &[2]*stringSet{}
+		}
+		outcomes := []int{0, 1}
+		if cv, ok := constBool(ret.Results[i]); ok {
+			if cv {
+				outcomes = []int{0}
+			} else {
+				outcomes = []int{1}
+			}
+		}
+		for _, o := range outcomes {
+			cur := k.sumOut[i][o]
+			if cur == nil {
+				cp := s.nonEmpty
+				k.sumOut[i][o] = &cp
+				continue
+			}
+			var both stringSet
+			for _, key := range cur.list() {
+				if s.nonEmpty.has(key) {
+					both = both.with(key)
+				}
+			}
+			*cur = both
+		}
+	}
+}
 func (k *fnClient) Instr(s fnState, in ssa.Instruction) (fnState, bool, []fnState) {
 	switch x := in.(type) {
 	case *ssa.Store:
@@ -792,6 +862,7 @@ func (k *fnClient) Instr(s fnState, in ssa.Instruction) (fnState, bool, []fnStat
 			break
 		}
 		s.nonEmpty = s.nonEmpty.without(ak)
+		s.facts = nil
 		nh := map[string]int{}
 		for f, id := range s.high {
 			if f != ak {
@@ -808,6 +879,46 @@ func (k *fnClient) Instr(s fnState, in ssa.Instruction) (fnState, bool, []fnStat
 		}
 		s.high = nh
 	case *ssa.Call:
+		if sc := x.Common().StaticCallee(); sc != nil && sc != k.target && sc.Signature.Recv() != nil && k.fn.Signature.Recv() != nil && len(x.Common().Args) > 0 && x.Common().Args[0] == ssa.Value(k.fn.Params[0]) && sc.Blocks != nil && namedOf(sc.Signature.Recv().Type()) == namedOf(k.fn.Signature.Recv().Type()) {
+			// a helper working on the same instance: it may replace any window; what is known afterwards is what its
+			// boolean results promise
+			s.nonEmpty, s.high, s.facts = stringSet{}, map[string]int{}, nil
+			if sum := k.helperSummary(sc); sum != nil {
+				from, to := "P:"+sc.Params[0].Name(), "P:"+k.fn.Params[0].Name()
+				tr := func(in *stringSet) stringSet {
+					var out stringSet
+					if in == nil {
+						return out
+					}
+					for _, key := range in.list() {
+						if strings.HasPrefix(key, from+".") {
+							out = out.with(to + key[len(from):])
+						}
+					}
+					return out
+				}
+				facts := map[int][2]stringSet{}
+				set := func(v ssa.Value, idx int) {
+					if f := sum[idx]; f != nil {
+						facts[k.num.id(v)] = [2]stringSet{tr(f[0]), tr(f[1])}
+					}
+				}
+				if refs := x.Referrers(); refs != nil {
+					for _, rf := range *refs {
+						if ex, ok := rf.(*ssa.Extract); ok {
+							set(ex, ex.Index)
+						}
+					}
+				}
+				if sc.Signature.Results().Len() == 1 {
+					set(x, 0)
+				}
+				if len(facts) > 0 {
+					s.facts = facts
+				}
+			}
+			break
+		}
 		if x.Common().StaticCallee() != k.target {
 			break
 		}
@@ -838,6 +949,16 @@ func (k *fnClient) Branch(s fnState, cond ssa.Value, outcome bool) (fnState, boo
 			break
 		}
 		cond, outcome = u.X, !outcome
+	}
+	if f, ok := s.facts[k.num.id(cond)]; ok {
+		add := f[1]
+		if outcome {
+			add = f[0]
+		}
+		for _, key := range add.list() {
+			s.nonEmpty = s.nonEmpty.with(key)
+		}
+		return s, true
 	}
 	bo, ok := cond.(*ssa.BinOp)
 	if !ok || !isIntConst(bo.Y, 0) {
